@@ -83,7 +83,12 @@ Theorem C19_rerooting_compositional : forall a b, escapes (normc a) = false -> n
 Proof. exact normc_compose. Qed.
 Print Assumptions C19_rerooting_compositional.
 
-(* Project-defined arguments: after any sequence of accepted declarations, respelling any subset of the
+(* Project-defined arguments.  The model carries the variant of add_user_argument as a boolean: declare_all is
+   the function as first written (fixed = false), declare_all_fixed the repaired one, which rejects an option
+   string without a name (the bare double dash) with ValueError.  The check probes the tree under test and ties
+   the matching variant.
+
+   As first written: after any sequence of accepted declarations, respelling any subset of the
    tokens that name a plain registered option (alone or with =value) as --x-... gives the same parse result
    (namespace, error, or outside the modelled fragment) - provided no argument has the empty name. *)
 Theorem C19_x_alias : forall decls p mask argv,
@@ -103,14 +108,51 @@ Proof.
 Qed.
 Print Assumptions C19_x_alias_refuted.
 
+(* Repaired: the guard is an invariant of accepted declarations (plain names exclude the bare double dash,
+   toggle actions register --enable-... / --disable-... / --with-... / --without-... strings, the x- twins start
+   with --x-), so the statement holds for every accepted sequence of declarations and every command line. *)
+Theorem C19_x_alias_repaired : forall decls p mask argv,
+  declare_all_fixed UParse decls empty_parser = inl p ->
+  parse p (respell p mask argv) = parse p argv.
+Proof. exact x_alias_repaired. Qed.
+Print Assumptions C19_x_alias_repaired.
+
+Theorem C19_repaired_never_registers_separator : forall decls p,
+  declare_all_fixed UParse decls empty_parser = inl p -> registered p dd = false.
+Proof. exact fixed_nodd. Qed.
+Print Assumptions C19_repaired_never_registers_separator.
+
+(* The repair rejects a declaration naming the bare double dash (all names starting with two dashes, as the
+   argument builtin makes them) with ValueError, and changes nothing else: declarations that do not name it are
+   accepted or rejected alike, with the same parser or the same error at the same position, by both variants. *)
+Theorem C19_repaired_rejects_nameless : forall u names k p,
+  forallb (starts_with dd) names = true -> existsb (str_eqb dd) names = true ->
+  declare true u (names, k) p = inr EValue.
+Proof. exact declare_fixed_rejects. Qed.
+Print Assumptions C19_repaired_rejects_nameless.
+
+Theorem C19_repair_changes_nothing_else : forall u decls p,
+  forallb (fun d => negb (existsb (str_eqb dd) (fst d))) decls = true ->
+  declare_all_fixed u decls p = declare_all u decls p.
+Proof. intros u decls p. exact (declare_from_fixed_same u decls 0%nat p). Qed.
+Print Assumptions C19_repair_changes_nothing_else.
+
 (* argument(n, action='enable' / 'with') registers exactly these four strings, the first two meaning True *)
 Theorem C19_toggle_strings : forall k n, k = AEnable \/ k = AWith -> starts_with (STR "x-") n = false ->
-  user_names UParse [dd ++ n] = Some [dd ++ n; ddx ++ n] /\
+  user_names false UParse [dd ++ n] = Some [dd ++ n; ddx ++ n] /\
   action_strings k [dd ++ n; ddx ++ n] =
     Some ([dd ++ true_prefix k ++ n; ddx ++ true_prefix k ++ n; dd ++ false_prefix k ++ n; ddx ++ false_prefix k ++ n],
           [dd ++ true_prefix k ++ n; ddx ++ true_prefix k ++ n]).
 Proof. exact toggle_strings. Qed.
 Print Assumptions C19_toggle_strings.
+
+Theorem C19_toggle_strings_repaired : forall k n, k = AEnable \/ k = AWith -> starts_with (STR "x-") n = false -> n <> [] ->
+  user_names true UParse [dd ++ n] = Some [dd ++ n; ddx ++ n] /\
+  action_strings k [dd ++ n; ddx ++ n] =
+    Some ([dd ++ true_prefix k ++ n; ddx ++ true_prefix k ++ n; dd ++ false_prefix k ++ n; ddx ++ false_prefix k ++ n],
+          [dd ++ true_prefix k ++ n; ddx ++ true_prefix k ++ n]).
+Proof. exact toggle_strings_repaired. Qed.
+Print Assumptions C19_toggle_strings_repaired.
 
 (* ---- non-vacuity ---- *)
 Example fname_build : fname_ok (STR "build.bfg").
@@ -164,3 +206,24 @@ Example ex_args :
   | inr _ => False
   end.
 Proof. vm_compute. repeat split; reflexivity. Qed.
+
+(* the repaired variant: the same declarations are accepted with the same parser and both spellings agree; the
+   declarations of C19_x_alias_refuted are rejected (first failing declaration 0, ValueError), also when the
+   nameless string is given to a toggle action or comes second; an empty name under a toggle prefix stays legal *)
+Example ex_args_repaired :
+  declare_all_fixed UParse [([STR "--name"], AStore); ([STR "--fast"], AEnable)] empty_parser =
+    declare_all UParse [([STR "--name"], AStore); ([STR "--fast"], AEnable)] empty_parser /\
+  match declare_all_fixed UParse [([STR "--name"], AStore); ([STR "--fast"], AEnable)] empty_parser with
+  | inl p =>
+      parse p [STR "--name=Bob"; STR "--disable-fast"] =
+        RNs [(STR "name", VStr (STR "Bob")); (STR "fast", VBool false)] /\
+      parse p (respell p [true; true] [STR "--name=Bob"; STR "--disable-fast"]) =
+        RNs [(STR "name", VStr (STR "Bob")); (STR "fast", VBool false)] /\
+      respell p [true; true] [STR "--name=Bob"; STR "--disable-fast"] = [STR "--x-name=Bob"; STR "--x-disable-fast"]
+  | inr _ => False
+  end /\
+  declare_all_fixed UParse [([STR "--foo"; STR "--"], AStore)] empty_parser = inr (0%nat, EValue) /\
+  declare_all_fixed UParse [([STR "--bar"], AStoreTrue); ([STR "--"], AWith)] empty_parser = inr (1%nat, EValue) /\
+  declare_all_fixed UHelp [([STR "--"], AStore)] empty_parser = inr (0%nat, EValue) /\
+  (exists p, declare_all UParse [([STR "--foo"; STR "--"], AStore)] empty_parser = inl p /\ registered p dd = true).
+Proof. vm_compute. repeat split; try reflexivity. eexists. split; reflexivity. Qed.
